@@ -6,16 +6,10 @@ import (
 	"context"
 	"time"
 
-	"github.com/sirupsen/logrus"
-	"tkestack.io/kvass/pkg/scrape"
 )
 
-// VerifSetProbe replaces the probe function and the retry interval (overlay only).
-func (e *Explore) VerifSetProbe(interval time.Duration,
-	f func(log logrus.FieldLogger, scrapeInfo *scrape.JobInfo, url string) (*scrape.StatisticsSeriesResult, error)) {
-	e.retryInterval = interval
-	e.explore = f
-}
+// VerifSetRetryInterval sets the interval after which a failed probe is retried (overlay only).
+func (e *Explore) VerifSetRetryInterval(interval time.Duration) { e.retryInterval = interval }
 
 // VerifProbeOnce runs one probe of the target synchronously with whatever probe function is installed
 // (the real one by default) (overlay only).
